@@ -54,9 +54,12 @@ def extra(tier, seed, workers, only):
         for spec, bound in scs:
             st = engine.explore(spec, bound=bound, merge=False, pool=pool, seed=seed, max_violations=50, max_execs=200000, max_seconds=90, recheck=0)
             total.merge_from(st)
+    from . import rconc
+    rst, rinfo = rconc.run_for("C07", tier, seed, workers, only)
+    total.merge_from(rst)
     for v in total.violations:
         for x in v["violations"]:
             if x["oracle"] in ("C08.deadlock", "C08.livelock"):
                 x["oracle"] = "C07." + x["oracle"].split(".")[1] + "-sync"
-    return total, {"thread_world_scenarios": len(scs), "schedules": total.evaluations,
+    return total, {"thread_world_scenarios": len(scs), "schedules": total.evaluations, "trio_world": rinfo,
                    "note": "states/transitions of these stateless runs count scheduling points and executed choice edges"}
